@@ -105,7 +105,7 @@ impl<'a> Dec<'a> {
 
     pub fn value(&mut self, id: u32) -> R<String> {
         self.depth += 1;
-        if self.depth > 64 {
+        if self.depth > 512 {
             return Err("value nests deeper than 64 levels".into());
         }
         let t = self.reg.resolve(id).ok_or_else(|| format!("id {id} does not resolve"))?;
